@@ -15,8 +15,10 @@
 package c11
 
 import (
-	"io"
+	"bytes"
 	"context"
+	"io"
+	"net/http"
 	"encoding/json"
 	"fmt"
 	"os"
@@ -27,6 +29,8 @@ import (
 	"time"
 
 	"github.com/superfly/litefs"
+	lfshttp "github.com/superfly/litefs/http"
+	"github.com/superfly/ltx"
 	"verif/lab"
 	"verif/oracle"
 	"verif/pager"
@@ -638,7 +642,7 @@ func closure(run *vlib.Run, wal bool) (states, transitions, maxDepth int, sample
 
 type BCfg struct {
 	WAL   bool   `json:"wal"`
-	Inner string `json:"inner"` // recover | apply | unhalt (the replica gives its remote halt lock back, which checkpoints its WAL)
+	Inner string `json:"inner"` // recover | apply | unhalt (the replica gives its remote halt lock back, which checkpoints its WAL) | export-hot | recover-recreate | expired-forward
 }
 
 func harnessB(cfgJSON json.RawMessage) sched.Harness {
@@ -657,7 +661,11 @@ func harnessB(cfgJSON json.RawMessage) sched.Harness {
 		cl := lab.NewCluster(10 * time.Second)
 		defer cl.Close()
 		cl.Net.Spawn = e.Spawner()
-		cl.AddNode("P", true, nil)
+		cl.AddNode("P", true, func(nc *lab.NodeConfig) {
+			if cfg.Inner == "expired-forward" {
+				nc.HaltLockTTL = 2 * time.Second
+			}
+		})
 		cl.AddNode("R1", false, nil)
 		if err := cl.Start("P"); err != nil || cl.WaitPrimary(5*time.Second) == nil {
 			return "harness-error:start", nil
@@ -717,6 +725,30 @@ func harnessB(cfgJSON json.RawMessage) sched.Harness {
 				return "harness-error:halt-commit", nil
 			}
 			img = w.Intended
+		}
+		var fwdClient *lfshttp.Client
+		var fwdData []byte
+		if cfg.Inner == "expired-forward" {
+			// A foreign node took the halt lock on the primary and then stalled for longer than the lock lives: the
+			// primary's monitor expired it. Its forwarded transaction arrives now, while a local connection reads.
+			fwdClient = lfshttp.NewClient()
+			fwdClient.HTTPClient = &http.Client{Transport: cl.Net.Transport("X")}
+			ctx, cancel := context.WithTimeout(context.Background(), 5*time.Second)
+			_, err := fwdClient.AcquireHaltLock(ctx, "http://P", 0xF00D, "db", 4711)
+			cancel()
+			if err != nil {
+				return "harness-error:foreign-halt:" + err.Error(), nil
+			}
+			lab.Settle(8 * time.Second)
+			if P.DB("db").VerifHaltLockID() != 0 {
+				// (a primary that keeps an expired lock on its books is what this configuration is about: carry on)
+				_ = 0
+			}
+			pos := P.DB("db").Pos()
+			next := img.Clone()
+			next.Pages[1] = pager.MakePage(ps, 2, 0xF0F0)
+			fwdData = lab.EncodeLTX(ltx.Header{Version: 1, PageSize: ps, Commit: next.N(), MinTXID: pos.TXID + 1, MaxTXID: pos.TXID + 1, Timestamp: 7, PreApplyChecksum: pos.PostApplyChecksum, NodeID: 0xF00D},
+				map[uint32][]byte{2: next.Pages[1]}, next.Checksum())
 		}
 		if cfg.Inner == "recover-recreate" {
 			// The (WAL-mode) database is deleted; the application then creates it again under the same name - with a
@@ -796,8 +828,8 @@ func harnessB(cfgJSON json.RawMessage) sched.Harness {
 		}
 		var aErr string
 		e.Go("A", func(th *sched.Thread) {
-			if cfg.Inner == "apply" || cfg.Inner == "unhalt" || cfg.Inner == "export-hot" {
-				// a reader on the replica (export-hot: on the primary)
+			if cfg.Inner == "apply" || cfg.Inner == "unhalt" || cfg.Inner == "export-hot" || cfg.Inner == "expired-forward" {
+				// a reader on the replica (export-hot, expired-forward: on the primary)
 				rc := pager.NewConn(N.M, "db", clientOwner, ps)
 				rc.Busy = func() bool { time.Sleep(200 * time.Microsecond); return false }
 				defer rc.Close()
@@ -851,6 +883,10 @@ func harnessB(cfgJSON json.RawMessage) sched.Harness {
 			}
 			if cfg.Inner == "unhalt" {
 				_ = haltFile.Unlock(uint64(litefs.LockTypeHalt), uint64(litefs.LockTypeHalt))
+				return
+			}
+			if cfg.Inner == "expired-forward" {
+				_ = fwdClient.Commit(ctx, "http://P", 0xF00D, "db", 4711, bytes.NewReader(fwdData))
 				return
 			}
 			// a commit on the primary makes the replica apply (the apply runs on the replica's stream goroutine,
@@ -916,7 +952,7 @@ func TestCheck(t *testing.T) {
 	}
 	var bInfo []any
 	bExec := 0
-	for _, cfg := range []BCfg{{WAL: false, Inner: "recover"}, {WAL: true, Inner: "recover"}, {WAL: false, Inner: "apply"}, {WAL: true, Inner: "apply"}, {WAL: true, Inner: "unhalt"}, {WAL: false, Inner: "export-hot"}, {WAL: true, Inner: "recover-recreate"}} {
+	for _, cfg := range []BCfg{{WAL: false, Inner: "recover"}, {WAL: true, Inner: "recover"}, {WAL: false, Inner: "apply"}, {WAL: true, Inner: "apply"}, {WAL: true, Inner: "unhalt"}, {WAL: false, Inner: "export-hot"}, {WAL: true, Inner: "recover-recreate"}, {WAL: false, Inner: "expired-forward"}, {WAL: true, Inner: "expired-forward"}} {
 		var tot sched.Totals
 		sched.Distributed(t, run, pool, reg, "c11b", cfg, bound, 3, 5*time.Minute, &tot)
 		bExec += tot.Executions
